@@ -39,6 +39,9 @@
 //@type (const )?Eigen::SparseView<.*> => SparseViewT val
 //@record Pomerol::BlockNumber => BlockNumber val
 //@rename op_ne_Bitset_Bitset => Bitset_ne_p
+/* two-argument Eigen forms sparseView(reference, epsilon) / prune(reference, epsilon) (not used by the current code; stubs/denseprod.h) */
+//@rename DenseProd_sparseView/2 => DenseProd_sparseView2
+//@rename SparseRM_prune/2 => SparseRM_prune2
 //@free abs => fo_abs_int
 //@tu src/pomerol/FieldOperatorPart.cpp
 //@enum ComputableObject::
